@@ -810,6 +810,10 @@ func main() {
 			OpIDs  []int  `json:"op_ids"`
 		}
 		r.LoadReplay(&rep)
+		if strings.Contains(rep.Search, "sub-process probe") {
+			probeBadgerResetWrite(r)
+			r.Finish()
+		}
 		for _, c := range runs {
 			if c.name == rep.Search {
 				c.build()
@@ -862,12 +866,15 @@ func main() {
 	r.Set("observations_per_transition", obsPerState)
 	r.Set("distinct_nontrivial", states)
 	r.Set("merge_checks", merges)
-	r.Set("rule", "BFS over op sequences on the real backend (state = model content + open batch + content at last reopen); after every transition all lookups and all iterator streams over Σ×Σ bounds are compared with a sorted-map model; non-trivial = distinct canonical state")
+	r.Set("rule", "BFS over op sequences on the real backend (state = model content + tombstoned keys + open batch incl. its op order + content at last reopen); after every transition all lookups and all iterator streams over Σ×Σ bounds are compared with a sorted-map model; non-trivial = distinct canonical state")
 	r.Assume("reference model is a Go map with sorted keys; forward domain start<=k<end, reverse domain end<k<=start, nil = unbounded")
 	r.Assume("db_counts = 1 (the default); the hash-sharded mode (db_counts > 1) is outside the bound")
 	r.Assume("cleveldb is not checked: libs/db/c_level_db.go does not compile under its build tag (creator signature, missing Seek)")
 	r.Assume("Iterator.Seek, Domain, Stats, Print and concurrent use are outside the statement and not exercised")
 	r.Assume("a batch that has been written is only reused after Reset; keys and values passed to the store are never modified afterwards")
+	r.Assume("fsdb: NewBatch panics \"not yet implemented\" (it does not claim batches); its searches have no batch operations")
+	r.Assume("values are \"1\", \"22\" and (badger, thorough) 40 bytes; a batch holds at most 3 operations; bounds per search are listed under coverage.searches")
+	r.Assume("badger only: if the sub-process probe shows that Write after Reset kills the process, that order is reported once and disabled in the in-process search")
 	removeScratch(false)
 	r.Assume("disk backends run on tmpfs (/dev/shm); durability across crashes is not part of this property (close is orderly)")
 	r.Finish()
